@@ -712,6 +712,17 @@ pub fn run_sched_case(case: &SchedCase, prop: &str, trace: bool) -> SchedRun {
                     mkret!(Violation { prop: "C07", step: r.start as usize, msg: format!("t{} get(k{k}) [{}..{}] returned v{seq} although invalidate(k{k}) by t{} [{}..{}] had returned before the get began and v{seq} was inserted before it ([{}..{}])", r.thread, r.start, r.end, w2.thread as isize, w2.start, w2.end, w.start, w.end) });
                 }
             }
+            // "inserted before the call" means, on the concurrent cache, "at a strictly earlier
+            // clock reading": a value whose insert read the clock before invalidate_all read
+            // it is targeted even if that insert returned only after the call (exact readings,
+            // taken at the switch point that follows the library's clock read)
+            for ia in &inval_all {
+                if let (Some(rw), Some(ri)) = (w.reading, ia.reading) {
+                    if rw < ri && ia.end < r.start {
+                        mkret!(Violation { prop: "C07", step: r.start as usize, msg: format!("t{} get(k{k}) [{}..{}] returned v{seq}, whose insert (t{} [{}..{}]) read the clock at {}, although invalidate_all by t{} [{}..{}], which read the clock at the later reading {}, had returned before the get began", r.thread, r.start, r.end, w.thread as isize, w.start, w.end, fmt_ns(rw), ia.thread as isize, ia.start, ia.end, fmt_ns(ri)) });
+                    }
+                }
+            }
             for ia in &inval_all {
                 if w.end < ia.start && ia.end < r.start && w.clock_end < ia.clock_start {
                     mkret!(Violation { prop: "C07", step: r.start as usize, msg: format!("t{} get(k{k}) [{}..{}] returned v{seq} (inserted [{}..{}] at clock {}) although invalidate_all by t{} [{}..{}] at the later clock reading {} had returned before the get began", r.thread, r.start, r.end, w.start, w.end, fmt_ns(w.clock_end), ia.thread as isize, ia.start, ia.end, fmt_ns(ia.clock_start)) });
@@ -1138,6 +1149,7 @@ fn litmus() -> Vec<(&'static str, SchedCase)> {
         ("insert; sync || 400 gets (read queue full)", SchedCase { cfg: base(Some(2), None), init: vec![ins(0, 1), TOp::Sync], threads: vec![vec![ins(1, 1), TOp::Sync], vec![TOp::Gets { k: 0, n: 400 }, get(0)]], preempt: vec![], first: 0, patience: 0 }),
         ("insert; sync || 400 inserts of fresh keys; update; get (write queue full)", SchedCase { cfg: base(None, None), init: vec![ins(0, 1), TOp::Sync], threads: vec![vec![ins(1, 1), TOp::Sync], vec![TOp::Fill { n: 400 }, ins(0, 2), get(0)]], preempt: vec![], first: 0, patience: 0 }),
         ("growing update; sync || update of one resident || update of the other (all nodes dirty during the eviction pass)", SchedCase { cfg: base(Some(2), None), init: vec![ins(0, 1), ins(1, 1), TOp::Sync], threads: vec![vec![ins(1, 3), TOp::Sync], vec![ins(0, 1)], vec![ins(1, 3)]], preempt: vec![], first: 0, patience: 0 }),
+        ("insert; get || advance; invalidate_all; insert; get (an insert that read the clock before invalidate_all lands after it)", SchedCase { cfg: base(None, None), init: vec![ins(0, 1), TOp::Sync], threads: vec![vec![ins(0, 1), get(0)], vec![TOp::Advance { ns: 1 }, TOp::InvalidateAll, ins(0, 1), get(0)]], preempt: vec![], first: 0, patience: 0 }),
         ("invalidate_all || invalidate_all (clock advancing)", SchedCase { cfg: base(None, None), init: vec![ins(0, 1), TOp::Advance { ns: 1 }], threads: vec![vec![TOp::InvalidateAll], vec![TOp::Advance { ns: 1 }, ins(1, 1), TOp::Advance { ns: 1 }, TOp::InvalidateAll, get(1)]], preempt: vec![], first: 0, patience: 0 }),
     ]
 }
